@@ -63,6 +63,7 @@ class Check:
         self.extra = {}
         self.rule_text = {}
         self.tainted = {}
+        self.maybe_nodes = set()
 
     # ------------------------------------------------------------ recording
     def ob(self, rule, construct, verdict, detail="", rel="", node=None, line=0, nontrivial=True):
@@ -71,6 +72,10 @@ class Check:
         path = f"checkpoint_schedules/{rel}" if rel else ""
         if rel:
             self.files.add(rel)
+        if verdict == REFUTED and node is not None and id(node) in self.maybe_nodes:
+            verdict = UNKNOWN
+            detail = ("not definite (this code sits under a branch on a value whose origin the constant propagation cannot "
+                      "follow: it may be dead) -- " + detail)
         o = Ob(rule, construct, verdict, detail, path, line, nontrivial)
         # merge duplicates of the same (rule, construct): REFUTED > UNKNOWN > PROVED
         for p in self.obs:
@@ -99,8 +104,11 @@ class Check:
         for o in self.obs:
             if o.verdict != REFUTED:
                 continue
+            partner = o.construct.split("<->", 1)[1].split("#")[0].split("[")[0] if "<->" in o.construct else None
             for pre, why in self.tainted.items():
-                if o.construct == pre or o.construct.startswith(pre + "#") or o.construct.startswith(pre + "."):
+                if o.construct == pre or o.construct.startswith(pre + "#") or o.construct.startswith(pre + ".") \
+                        or (partner and (pre == partner or pre.endswith("." + partner))) \
+                        or ("<->" in o.construct and o.construct.split("<->")[0] in (pre, pre.rsplit(".", 1)[-1])):
                     o.verdict = UNKNOWN
                     o.detail = ("not definite (the analysis of this function met constructs it cannot follow: "
                                 + "; ".join(f"line {l}: {t}" for l, t in why[:3]) + ") -- " + o.detail)
@@ -174,8 +182,8 @@ class Check:
             for rule, spec in pins.items():
                 ref = spec if isinstance(spec, int) else spec.get(self.tier, spec.get("quick", 0))
                 # a behaviour-preserving refactoring may merge or split a few sites: the pinned
-                # minimum is 60% of the reference count (at least 1), enough to exclude vacuous passes
-                need = max(1, (ref * 6) // 10) if ref else 0
+                # minimum is 40% of the reference count (at least 1), enough to exclude vacuous passes
+                need = max(1, (ref * 4) // 10) if ref else 0
                 if counts.get(rule, 0) < need:
                     short.append((rule, counts.get(rule, 0), need))
         os.makedirs(os.path.join(EVIDENCE_DIR, "replay"), exist_ok=True)
